@@ -149,7 +149,9 @@ class Fault(Exception):
 
 def hclass(h, D, sym):
     if sym:
-        return "hmax"
+        # a loop to the full halo depth on a mesh whose halo depth is 1 is a
+        # corner of its own (max_halo_depth_mesh-1 == 0)
+        return "hmax_D1" if D == 1 else "hmax"
     if h <= 1:
         return "h%d" % h
     return "hk"
@@ -307,9 +309,12 @@ def run_field(events, key, D, env, cd0, ax0, counters=None):
                     pre = ("stencil" if s else "read") + ":" + cname + ":" + hc
                     need(ev, a, acc, st.cd >= h + s, "halo clean to depth %d"
                          % (h + s), pre + ":halo_dirty")
-                    if c == "cont" and h + s == 0:
+                    if c == "cont" and h + s == 0 and \
+                            not a.get("gh_write_cont_kernel"):
                         need(ev, a, acc, st.ax, "clean annexed DoFs",
-                             pre + ":annexed_dirty")
+                             pre + ":annexed_dirty" +
+                             (":all_updates_gh_write"
+                              if a.get("all_updates_gh_write") else ""))
                 elif acc == "INC":
                     need(ev, a, acc, st.cd >= h - 1,
                          "halo clean to depth %d" % max(h - 1, 0),
